@@ -8,6 +8,7 @@ import NitroVerif.Driver.SkipSeq
 import NitroVerif.Driver.Mvcc
 import NitroVerif.Driver.Backup
 import NitroVerif.Driver.MvccBackup
+import NitroVerif.Driver.MvccConc
 namespace NitroVerif.Driver
 
 def engineByName (name : String) : Option Engine :=
@@ -20,6 +21,7 @@ def engineByName (name : String) : Option Engine :=
   | "skipconc" => some skipConcEngine
   | "skipseq" => some skipSeqEngine
   | "mvcc" => some mvccBkEngine
+  | "mvccconc" => some mvccConcEngine
   | "backupimg" => some backupImgEngine
   | _ => none
 
